@@ -195,30 +195,54 @@ func (s *Server) DidOpen(ctx context.Context, params *protocol.DidOpenTextDocume
 	return nil
 }
 
+// ContentChange is one content change of a didChange notification. Range is
+// nil when the client sent no range, i.e. Text replaces the whole document.
+type ContentChange struct {
+	Range *protocol.Range `json:"range,omitempty"`
+	Text  string          `json:"text"`
+}
+
+// DidChange handles a decoded didChange notification. The decoded form cannot
+// tell a change without range from one with the explicit range 0:0-0:0 (both
+// are the zero Range), so the latter is taken for a full replacement here;
+// callers that know the difference use DidChangeContent.
 func (s *Server) DidChange(ctx context.Context, params *protocol.DidChangeTextDocumentParams) error {
-	if doc, ok := s.documents.Load(params.TextDocument.URI); ok {
+	changes := make([]ContentChange, len(params.ContentChanges))
+	for i, change := range params.ContentChanges {
+		changes[i].Text = change.Text
+		if !isFullChange(change.Range) {
+			r := change.Range
+			changes[i].Range = &r
+		}
+	}
+	return s.DidChangeContent(ctx, params.TextDocument.URI, changes)
+}
+
+// DidChangeContent applies content changes to an open document, in order.
+func (s *Server) DidChangeContent(ctx context.Context, docURI protocol.DocumentURI, changes []ContentChange) error {
+	if doc, ok := s.documents.Load(docURI); ok {
 		content, ok := doc.(string)
 		if !ok {
 			return nil
 		}
-		for _, change := range params.ContentChanges {
-			if isFullChange(change.Range) {
+		for _, change := range changes {
+			if change.Range == nil {
 				content = change.Text
 			} else {
-				content = applyChange(content, change.Range, change.Text)
+				content = applyChange(content, *change.Range, change.Text)
 			}
 		}
-		s.documents.Store(params.TextDocument.URI, content)
+		s.documents.Store(docURI, content)
 		// templates are collected over the whole tree: any edit outdates them
 		s.payeeTemplatesCache.Clear()
 		if s.workspace != nil {
-			if path := uriToPath(params.TextDocument.URI); path != "" {
+			if path := uriToPath(docURI); path != "" {
 				s.workspace.UpdateFile(path, content)
 				s.loader.InvalidateFile(path)
 			}
 		}
-		seq := s.nextAnalysisSeq(params.TextDocument.URI)
-		go s.publishDiagnosticsSeq(ctx, params.TextDocument.URI, content, seq)
+		seq := s.nextAnalysisSeq(docURI)
+		go s.publishDiagnosticsSeq(ctx, docURI, content, seq)
 	}
 	return nil
 }
